@@ -2,52 +2,347 @@
    connections: each connection is in exactly one place, delivered at most once, never to a
    handle whose accept started after its Close; closing is isolated; after the last Close the
    socket is released and no accepted connection is left hanging (C12). *)
-From OSS Require Import theories.Base theories.AList theories.Listeners.
+From OSS Require Import theories.Base theories.Listeners.
 From Coq Require Import Permutation.
 
-Lemma Neqb_eq a b : N.eqb a b = true <-> a = b.
-Proof. apply N.eqb_eq. Qed.
+Lemma existsb_In s l : existsb (N.eqb s) l = true <-> In s l.
+Proof. rewrite existsb_exists. split; [intros [x [H E]]; apply N.eqb_eq in E; subst; exact H | intros H; exists s; split; [exact H | apply N.eqb_refl]]. Qed.
+Lemma hupd_same f h v : hupd f h v h = v.
+Proof. unfold hupd. rewrite N.eqb_refl. reflexivity. Qed.
+Lemma hupd_other f h v x : x <> h -> hupd f h v x = f x.
+Proof. intros H. unfold hupd. apply N.eqb_neq in H. rewrite H. reflexivity. Qed.
+
+Lemma count_open_notin f h v ids : ~ In h ids -> count_open (hupd f h v) ids = count_open f ids.
+Proof.
+  unfold count_open. induction ids as [|x r IH]; intros Hn; cbn; [reflexivity|].
+  rewrite hupd_other by (intros ->; apply Hn; left; reflexivity).
+  destruct (h_closed (f x)); cbn; rewrite IH by (intros H; apply Hn; right; exact H); reflexivity.
+Qed.
+Lemma count_open_upd f h v ids :
+  NoDup ids -> In h ids ->
+  count_open (hupd f h v) ids + (if h_closed (f h) then 0 else 1) = count_open f ids + (if h_closed v then 0 else 1).
+Proof.
+  unfold count_open. induction ids as [|x r IH]; intros ND Hin; [destruct Hin|].
+  inversion ND as [|? ? Hn Hr]; subst. cbn [filter].
+  destruct Hin as [->|Hin].
+  - rewrite hupd_same. fold (count_open (hupd f h v) r). fold (count_open f r). 
+    pose proof (count_open_notin f h v r Hn) as C. unfold count_open in C.
+    destruct (h_closed v), (h_closed (f h)); cbn [negb length]; rewrite C; lia.
+  - assert (x <> h) by (intros ->; contradiction). rewrite hupd_other by assumption.
+    specialize (IH Hr Hin). destruct (h_closed (f x)); cbn [negb length]; lia.
+Qed.
+Lemma count_open_app f ids h : count_open f (ids ++ [h]) = count_open f ids + (if h_closed (f h) then 0 else 1).
+Proof. unfold count_open. rewrite filter_app, app_length. cbn. destruct (h_closed (f h)); reflexivity. Qed.
 
 (* --- invariant ------------------------------------------------------------------------------ *)
 Definition inv (s : sl) : Prop :=
   Permutation (whereabouts s) (arrived s) /\ NoDup (arrived s) /\
   count s = open_handles s /\
-  (sock s = Open <-> (0 < count s)) /\
-  (sock s = Unbound -> g s = GNone /\ handles s = []) /\
-  (done s = true <-> (sock s = Closed)) /\
+  (sock s = Open <-> 0 < count s) /\
+  (sock s = Unbound -> g s = GNone /\ handles s = [] /\ arrived s = []) /\
+  (done s = true <-> sock s = Closed) /\
   (g s = GNone -> sock s = Unbound) /\
   (ch_closed s = true -> g s = GExited) /\
   (g s = GExited -> sock s = Closed) /\
-  NoDup (akeys (handles s)) /\
-  (forall h c, In (h, c) (delivered s) -> In h (akeys (handles s))).
+  (sock s = Closed -> kq s = []) /\
+  NoDup (handles s) /\
+  (forall h c, In (h, c) (delivered s) -> In h (handles s)).
 
 Lemma inv0 : inv sl0.
 Proof.
-  unfold inv, whereabouts, held, open_handles. cbn.
-  repeat split; try constructor; try discriminate; try tauto; try lia.
-  intros H; inversion H.
+  unfold inv, whereabouts, held, open_handles, count_open. cbn.
+  repeat split; try apply NoDup_nil; try apply perm_nil; try discriminate; try tauto; try lia.
 Qed.
 
-Lemma open_handles_app s h v :
-  length (filter (fun kv : N * hst => negb (h_closed (snd kv))) (handles s ++ [(h, v)]))
-  = open_handles s + (if h_closed v then 0 else 1).
-Proof. unfold open_handles. rewrite filter_app, app_length. cbn. destruct (h_closed v); reflexivity. Qed.
+Ltac inv_destruct I :=
+  destruct I as (IP & IND & IC & IO & IU & ID & IGN & ICH & IGE & IKQ & IH & IDL).
 
-(* changing only the pending flag of a handle keeps the number of open handles *)
-Lemma open_handles_set_same_closed s h hs p :
-  alookup N.eqb h (handles s) = Some hs ->
-  length (filter (fun kv : N * hst => negb (h_closed (snd kv))) (set_handle s h {| h_closed := h_closed hs; h_pending := p |}))
-  = open_handles s.
+Lemma perm_move_last (a b : list N) c : Permutation (a ++ c :: b) (a ++ b ++ [c]).
+Proof. apply Permutation_app_head. change (c :: b) with ([c] ++ b). apply Permutation_app_comm. Qed.
+
+Lemma NoDup_snoc (l : list N) x : NoDup l -> ~ In x l -> NoDup (l ++ [x]).
 Proof.
-  intros L. unfold set_handle, aset, open_handles. rewrite L. unfold aupdate.
-  induction (handles s) as [|[k v] r IH]; [discriminate|]. cbn in L |- *.
-  destruct (N.eqb h k) eqn:E; cbn.
-  - inversion L; subst. destruct (h_closed hs); cbn; f_equal.
-    + clear IH L. induction r as [|[k2 v2] r IH2]; cbn; [reflexivity|].
-      destruct (N.eqb h k2) eqn:E2; cbn.
-      * (* duplicate key cannot be assumed away here; handle generally *)
-        admit.
-      * destruct (h_closed v2); cbn; rewrite ?IH2; reflexivity.
-    + admit.
-  - destruct (h_closed v); cbn; rewrite IH by exact L; reflexivity.
-Admitted.
+  intros ND Hn. apply (NoDup_Add (a:=x) (l:=l)); [pose proof (Add_app x l []) as A; rewrite app_nil_r in A; exact A | tauto].
+Qed.
+
+Ltac gen := repeat split; try discriminate; try tauto; try lia; try assumption; try apply perm_nil; try apply NoDup_nil.
+Ltac unf := unfold inv, with_hstate, whereabouts, held, open_handles in *;
+            cbn [sock kq g ch_closed done count handles hstate arrived delivered srv_closed] in *.
+Ltac left_over := match goal with |- ?g => fail 1 "LEFT" g end.
+
+Lemma t_acquire s h s' : inv s -> step s (Acquire h) = Some s' -> inv s'.
+Proof.
+  intros I S. inv_destruct I. cbn [step] in S.
+  destruct (has_handle s h) eqn:Hh; [discriminate|].
+  assert (Hn : ~ In h (handles s)) by (intros H; apply existsb_In in H; unfold has_handle in Hh; congruence).
+  assert (Cz : sock s = Closed -> count s = 0).
+  { intros Sc. destruct (count s) eqn:Cn; [reflexivity|]. exfalso. assert (sock s = Open) by (apply IO; lia). congruence. }
+  destruct (sock s) eqn:Sk; [| |destruct (g s) eqn:G; try discriminate]; inversion S; subst; clear S.
+  3: { (* new generation on a released address *)
+    specialize (Cz eq_refl).
+    unf. rewrite ?G in *. unf. pose proof (IKQ eq_refl) as K0. rewrite K0 in IP. cbn [app] in IP. gen.
+    + rewrite count_open_app, hupd_same, count_open_notin by exact Hn. cbn. lia.
+    + apply NoDup_snoc; assumption.
+    + intros h0 c0 Hd. apply in_or_app. left. eapply IDL. exact Hd. }
+  - destruct (IU eq_refl) as (G0 & H0 & A0). unfold whereabouts, held in IP. rewrite G0 in IP.
+    assert (Ekq : kq s = [] /\ delivered s = [] /\ srv_closed s = []).
+    { rewrite A0 in IP. apply Permutation_sym in IP. apply Permutation_nil in IP. cbn in IP.
+      destruct (kq s); [|discriminate]. cbn in IP. destruct (delivered s); [|discriminate]. cbn in IP. tauto. }
+    destruct Ekq as (E1 & E2 & E3). unf. rewrite H0, A0, E2, E3. cbn. gen.
+    + unfold count_open. cbn. rewrite hupd_same. reflexivity.
+    + constructor; [intros []|constructor].
+  - unf. gen.
+    + rewrite count_open_app, hupd_same, count_open_notin by exact Hn. cbn. lia.
+    + apply NoDup_snoc; assumption.
+    + intros h0 c0 Hd. apply in_or_app. left. eapply IDL. exact Hd.
+Qed.
+
+Lemma t_arrive s c s' : inv s -> step s (Arrive c) = Some s' -> inv s'.
+Proof.
+  intros I S. inv_destruct I. cbn [step] in S.
+  destruct (sock s) eqn:Sk; try discriminate. destruct (existsb (N.eqb c) (arrived s)) eqn:Ea; [discriminate|].
+  assert (Hn : ~ In c (arrived s)) by (intros H; apply existsb_In in H; congruence).
+  inversion S; subst; clear S. unf. gen.
+  - rewrite <- app_assoc. eapply Permutation_trans; [apply perm_move_last|].
+    rewrite !app_assoc. apply Permutation_app_tail. rewrite <- !app_assoc. exact IP.
+  - apply NoDup_snoc; assumption.
+Qed.
+
+Lemma t_gaccept s s' : inv s -> step s GAccept = Some s' -> inv s'.
+Proof.
+  intros I S. inv_destruct I. cbn [step] in S.
+  destruct (g s) eqn:G; try discriminate. destruct (sock s) eqn:Sk; try discriminate.
+  destruct (kq s) as [|c1 r] eqn:K; [discriminate|]. inversion S; subst; clear S. unf. rewrite ?G, ?K in *. unf. gen.
+  - cbn [app] in IP |- *. eapply Permutation_trans; [|exact IP]. apply Permutation_sym. apply Permutation_middle.
+  - intros Hx. apply ICH in Hx. discriminate.
+Qed.
+
+Lemma t_gsees s s' : inv s -> step s GSeesClosed = Some s' -> inv s'.
+Proof.
+  intros I S. inv_destruct I. cbn [step] in S.
+  destruct (g s) eqn:G; try discriminate. destruct (sock s) eqn:Sk; try discriminate.
+  inversion S; subst; clear S. unf. rewrite ?G in *. unf. gen.
+  all: left_over.
+Qed.
+
+Lemma count_open_same f h v ids :
+  NoDup ids -> In h ids -> h_closed v = h_closed (f h) -> count_open (hupd f h v) ids = count_open f ids.
+Proof. intros ND Hin E. pose proof (count_open_upd f h v ids ND Hin) as C. rewrite E in C. lia. Qed.
+
+Ltac side :=
+  first
+  [ solve [intuition congruence]
+  | solve [intuition lia]
+  | solve [rewrite count_open_same by (try assumption; cbn; congruence); assumption]
+  | solve [intros; match goal with H : _ <-> (0 < _) |- _ => apply H; lia end] ].
+
+Lemma t_deliver s h s' : inv s -> step s (Deliver h) = Some s' -> inv s'.
+Proof.
+  intros I S. inv_destruct I. cbn [step] in S.
+  destruct (g s) as [| |c1|] eqn:G; try discriminate.
+  destruct (has_handle s h && h_pending (hstate s h)) eqn:C; [|discriminate]. apply andb_true_iff in C as [C1 C2].
+  apply existsb_In in C1. inversion S; subst; clear S. unf. rewrite ?G in *. unf. gen; try side.
+  - rewrite map_app. cbn [map snd app]. eapply Permutation_trans; [|exact IP]. apply Permutation_app_head. cbn [app].
+    rewrite <- app_assoc. cbn [app]. apply Permutation_sym. apply Permutation_middle.
+  - intros h0 c0 Hd. apply in_app_or in Hd as [Hd|[E|[]]]; [eapply IDL; exact Hd | inversion E; subst; exact C1].
+Qed.
+
+Lemma t_gorphan s s' : inv s -> step s GOrphan = Some s' -> inv s'.
+Proof.
+  intros I S. inv_destruct I. cbn [step] in S.
+  destruct (g s) as [| |c1|] eqn:G; try discriminate. destruct (done s) eqn:D; [|discriminate].
+  inversion S; subst; clear S. unf. rewrite ?G in *. unf. assert (Sk : sock s = Closed) by (apply ID; reflexivity). gen; try side.
+  - cbn [app]. eapply Permutation_trans; [|exact IP]. cbn [app]. apply Permutation_app_head.
+    rewrite app_assoc. eapply Permutation_trans; [apply Permutation_sym, Permutation_middle|]. rewrite app_nil_r. reflexivity.
+Qed.
+
+Lemma t_acall s h s' : inv s -> step s (AcceptCall h) = Some s' -> inv s'.
+Proof.
+  intros I S. inv_destruct I. cbn [step] in S.
+  destruct (has_handle s h && negb (h_pending (hstate s h)) && negb (h_closed (hstate s h))) eqn:C; [|discriminate].
+  apply andb_true_iff in C as [C C3]. apply andb_true_iff in C as [C1 C2]. apply existsb_In in C1.
+  apply negb_true_iff in C3. inversion S; subst; clear S. unf. gen; try side.
+  all: left_over.
+Qed.
+
+Lemma t_aret s h s' : inv s -> step s (AcceptRetClosed h) = Some s' -> inv s'.
+Proof.
+  intros I S. inv_destruct I. cbn [step] in S.
+  destruct (has_handle s h && h_pending (hstate s h) && (h_closed (hstate s h) || ch_closed s)) eqn:C; [|discriminate].
+  apply andb_true_iff in C as [C _]. apply andb_true_iff in C as [C1 _]. apply existsb_In in C1.
+  inversion S; subst; clear S. unf. gen; try side.
+  all: left_over.
+Qed.
+
+Lemma t_close s h s' : inv s -> step s (CloseH h) = Some s' -> inv s'.
+Proof.
+  intros I S. inv_destruct I. cbn [step] in S.
+  destruct (has_handle s h && negb (h_closed (hstate s h))) eqn:C; [|discriminate].
+  apply andb_true_iff in C as [C1 C2]. apply existsb_In in C1. apply negb_true_iff in C2.
+  pose proof (count_open_upd (hstate s) h {| h_closed := true; h_pending := h_pending (hstate s h) |} (handles s) IH C1) as CU.
+  cbn [h_closed] in CU. rewrite C2 in CU. unfold open_handles in IC.
+  destruct (count s) as [|[|n]] eqn:Cn; [discriminate| |]; inversion S; subst; clear S; unf.
+  - assert (Sk : sock s = Open) by (apply IO; lia). gen; try side.
+    all: try (match goal with |- Permutation _ _ =>
+      cbn [app]; eapply Permutation_trans; [|exact IP];
+      rewrite !app_assoc; eapply Permutation_trans; [apply Permutation_app_comm|]; rewrite <- !app_assoc; reflexivity end).
+    all: left_over.
+  - gen; try side. all: left_over.
+Qed.
+
+Lemma inv_step s l s' : inv s -> step s l = Some s' -> inv s'.
+Proof.
+  intros I S. destruct l as [h|c| | |h| |h|h|h].
+  - eapply t_acquire; eassumption.
+  - eapply t_arrive; eassumption.
+  - eapply t_gaccept; eassumption.
+  - eapply t_gsees; eassumption.
+  - eapply t_deliver; eassumption.
+  - eapply t_gorphan; eassumption.
+  - eapply t_acall; eassumption.
+  - eapply t_aret; eassumption.
+  - eapply t_close; eassumption.
+Qed.
+
+Lemma inv_run tr : forall s s', inv s -> run s tr = Some s' -> inv s'.
+Proof.
+  induction tr as [|l t IH]; intros s s' I R; cbn in R; [inversion R; subst; exact I|].
+  destruct (step s l) as [s1|] eqn:S; [|discriminate]. apply (IH s1); [eapply inv_step; eassumption | exact R].
+Qed.
+
+Lemma NoDup_app_parts {A} (a b : list A) : NoDup (a ++ b) -> NoDup a /\ NoDup b.
+Proof.
+  induction a as [|x a IH]; cbn; intros H; [split; [constructor|exact H]|].
+  inversion H as [|? ? Hn Hr]; subst. destruct (IH Hr) as [Ha Hb]. split; [|exact Hb].
+  constructor; [|exact Ha]. intros Hin. apply Hn. apply in_or_app. left. exact Hin.
+Qed.
+
+(* EXACTLY ONCE: after any interleaving, every connection that reached the socket is in exactly
+   one place — kernel queue, held by the accept goroutine, delivered to one handle, or closed by
+   the server — and no connection is delivered twice *)
+Lemma exactly_one_place_lemma tr s :
+  run sl0 tr = Some s ->
+  Permutation (kq s ++ held s ++ map snd (delivered s) ++ srv_closed s) (arrived s) /\
+  NoDup (kq s ++ held s ++ map snd (delivered s) ++ srv_closed s) /\
+  NoDup (map snd (delivered s)).
+Proof.
+  intros R. pose proof (inv_run tr sl0 s inv0 R) as I. inv_destruct I. unfold whereabouts in IP.
+  assert (ND : NoDup (kq s ++ held s ++ map snd (delivered s) ++ srv_closed s)).
+  { eapply Permutation_NoDup; [apply Permutation_sym; exact IP | exact IND]. }
+  split; [exact IP|]. split; [exact ND|].
+  apply NoDup_app_parts in ND as [_ ND]. apply NoDup_app_parts in ND as [_ ND]. apply NoDup_app_parts in ND as [ND _]. exact ND.
+Qed.
+
+(* never lost while a handle is open: while some handle is open the socket is open (connections
+   keep being queued and can be accepted); nothing is dropped on the way *)
+Lemma open_while_handle_open_lemma tr s :
+  run sl0 tr = Some s -> (0 < open_handles s <-> sock s = Open) /\ count s = open_handles s.
+Proof.
+  intros R. pose proof (inv_run tr sl0 s inv0 R) as I. inv_destruct I. rewrite <- IC. split; [split; apply IO | reflexivity].
+Qed.
+
+(* CLOSED HANDLES: a handle that is closed and has no call in progress can never be delivered a
+   connection again, whatever happens next; an accept started on it fails at once *)
+Definition dead (s : sl) (h : N) : Prop :=
+  In h (handles s) /\ h_closed (hstate s h) = true /\ h_pending (hstate s h) = false.
+Lemma dead_step s l s' h : dead s h -> step s l = Some s' -> dead s' h /\ l <> Deliver h /\ l <> AcceptCall h.
+Proof.
+  intros (Din & Dc & Dp) S. destruct l as [h0|c| | |h0| |h0|h0|h0]; cbn [step] in S.
+  - destruct (has_handle s h0) eqn:Hh; [discriminate|].
+    assert (Hne : h <> h0).
+    { intros ->. unfold has_handle in Hh. assert (existsb (N.eqb h0) (handles s) = true) by (apply existsb_In; exact Din). congruence. }
+    destruct (sock s); [| |destruct (g s); try discriminate]; inversion S; subst; clear S; unfold dead; cbn [hstate handles];
+      rewrite hupd_other by exact Hne; (split; [|split; discriminate]); (split; [apply in_or_app; left; exact Din | tauto]).
+  - destruct (sock s); try discriminate. destruct (existsb _ _); [discriminate|]. inversion S; subst. unfold dead. cbn. repeat split; try assumption; discriminate.
+  - destruct (g s); try discriminate. destruct (sock s); try discriminate. destruct (kq s); [discriminate|]. inversion S; subst.
+    unfold dead. cbn. repeat split; try assumption; discriminate.
+  - destruct (g s); try discriminate. destruct (sock s); try discriminate. inversion S; subst. unfold dead. cbn. repeat split; try assumption; discriminate.
+  - destruct (g s) as [| |c1|]; try discriminate.
+    destruct (has_handle s h0 && h_pending (hstate s h0)) eqn:C; [|discriminate]. apply andb_true_iff in C as [_ C2].
+    inversion S; subst; clear S. unfold dead; cbn [hstate handles].
+    destruct (N.eqb_spec h h0) as [->|Hne]; [congruence|]. rewrite hupd_other by exact Hne. repeat split; try assumption; try discriminate. congruence.
+  - destruct (g s); try discriminate. destruct (done s); [|discriminate]. inversion S; subst. unfold dead. cbn. repeat split; try assumption; discriminate.
+  - destruct (has_handle s h0 && negb (h_pending (hstate s h0)) && negb (h_closed (hstate s h0))) eqn:C; [|discriminate].
+    apply andb_true_iff in C as [_ C3]. apply negb_true_iff in C3. inversion S; subst; clear S.
+    unfold dead, with_hstate; cbn [hstate handles]. destruct (N.eqb_spec h h0) as [->|Hne]; [congruence|]. rewrite hupd_other by exact Hne.
+    repeat split; try assumption; try discriminate. congruence.
+  - destruct (has_handle s h0 && h_pending (hstate s h0) && (h_closed (hstate s h0) || ch_closed s)) eqn:C; [|discriminate].
+    apply andb_true_iff in C as [C _]. apply andb_true_iff in C as [_ C2]. inversion S; subst; clear S.
+    unfold dead, with_hstate; cbn [hstate handles]. destruct (N.eqb_spec h h0) as [->|Hne]; [congruence|]. rewrite hupd_other by exact Hne.
+    repeat split; try assumption; discriminate.
+  - destruct (has_handle s h0 && negb (h_closed (hstate s h0))) eqn:C; [|discriminate].
+    apply andb_true_iff in C as [_ C2]. apply negb_true_iff in C2.
+    destruct (count s) as [|[|n]]; [discriminate| |]; inversion S; subst; clear S; unfold dead; cbn [hstate handles];
+      (destruct (N.eqb_spec h h0) as [->|Hne]; [congruence|]); rewrite hupd_other by exact Hne; repeat split; try assumption; discriminate.
+Qed.
+
+(* ... hence along ANY continuation no connection is delivered to it and no accept on it blocks *)
+Lemma closed_handle_fails_lemma tr : forall s s' h,
+  dead s h -> run s tr = Some s' -> dead s' h /\ ~ In (Deliver h) tr /\ ~ In (AcceptCall h) tr.
+Proof.
+  induction tr as [|l t IH]; intros s s' h D R; cbn in R.
+  - inversion R; subst. split; [exact D|]. split; intros [].
+  - destruct (step s l) as [s1|] eqn:S; [|discriminate].
+    destruct (dead_step s l s1 h D S) as (D1 & N1 & N2). destruct (IH s1 s' h D1 R) as (D2 & N3 & N4).
+    split; [exact D2|]. split; (intros [E|Hin]; [congruence|contradiction]).
+Qed.
+
+(* Close makes the handle dead as soon as its pending call (if any) has returned, and it is
+   isolated: other handles, what was delivered, and — unless it was the last — the socket, the
+   kernel queue and the accept goroutine are untouched *)
+Lemma close_isolated_lemma s h s' :
+  step s (CloseH h) = Some s' ->
+  h_closed (hstate s' h) = true /\
+  (forall x, x <> h -> hstate s' x = hstate s x) /\ delivered s' = delivered s /\ arrived s' = arrived s /\ handles s' = handles s /\
+  (1 < count s -> sock s' = sock s /\ kq s' = kq s /\ g s' = g s /\ srv_closed s' = srv_closed s) /\
+  (count s = 1 -> sock s' = Closed /\ done s' = true /\ kq s' = [] /\ srv_closed s' = srv_closed s ++ kq s).
+Proof.
+  cbn [step]. destruct (has_handle s h && negb (h_closed (hstate s h))); [|discriminate].
+  destruct (count s) as [|[|n]] eqn:Cn; [discriminate| |]; intros S; inversion S; subst; clear S;
+    cbn [hstate delivered arrived handles sock kq g srv_closed done]; rewrite hupd_same; cbn [h_closed];
+    (split; [reflexivity|]); (split; [intros x Hx; apply hupd_other; exact Hx|]); repeat split; try reflexivity; try lia.
+Qed.
+
+(* LAST CLOSE: in every reachable state in which no handle is open and the accept goroutine has
+   nothing left to do, the socket is released (closed, so the address can be bound again), the
+   goroutine has exited, and every connection that ever arrived was either delivered to a handle
+   or closed by the server: none is left hanging *)
+Lemma last_close_releases_lemma tr s :
+  run sl0 tr = Some s -> count s = 0 -> handles s <> [] -> g_enabled s = false ->
+  sock s = Closed /\ g s = GExited /\ kq s = [] /\ held s = [] /\
+  Permutation (map snd (delivered s) ++ srv_closed s) (arrived s).
+Proof.
+  intros R C0 Hh Ge. pose proof (inv_run tr sl0 s inv0 R) as I. inv_destruct I.
+  assert (Sk : sock s = Closed).
+  { destruct (sock s) eqn:Sk; [|exfalso|reflexivity].
+    - destruct (IU eq_refl) as (_ & H0 & _). contradiction.
+    - assert (0 < count s) by (apply IO; reflexivity). lia. }
+  assert (Dn : done s = true) by (apply ID; exact Sk).
+  unfold g_enabled in Ge. rewrite Sk, Dn in Ge.
+  destruct (g s) as [| |c|] eqn:G.
+  - pose proof (IGN eq_refl) as U. congruence.
+  - discriminate.
+  - cbn in Ge. discriminate.
+  - unfold whereabouts, held in IP. rewrite G in IP. rewrite (IKQ Sk) in IP. cbn in IP.
+    split; [exact Sk|]. split; [reflexivity|]. split; [apply IKQ; exact Sk|]. split; [unfold held; rewrite G; reflexivity | exact IP].
+Qed.
+
+(* the accept goroutine always gets there: from any reachable state with no handle open, at most
+   two of its own steps lead to the state above *)
+Lemma g_finishes_lemma tr s :
+  run sl0 tr = Some s -> count s = 0 -> handles s <> [] ->
+  exists gs s', run s gs = Some s' /\ length gs <= 1 /\ g s' = GExited /\
+               Forall (fun l => l = GSeesClosed \/ l = GOrphan) gs.
+Proof.
+  intros R C0 Hh. pose proof (inv_run tr sl0 s inv0 R) as I. inv_destruct I.
+  assert (Sk : sock s = Closed).
+  { destruct (sock s) eqn:Sk; [|exfalso|reflexivity].
+    - destruct (IU eq_refl) as (_ & H0 & _). contradiction.
+    - assert (0 < count s) by (apply IO; reflexivity). lia. }
+  assert (Dn : done s = true) by (apply ID; exact Sk).
+  destruct (g s) as [| |c|] eqn:G.
+  - pose proof (IGN eq_refl) as U. congruence.
+  - exists [GSeesClosed]. eexists. cbn [run step]. rewrite G, Sk. split; [reflexivity|]. cbn. split; [lia|]. split; [reflexivity|]. constructor; [left; reflexivity | constructor].
+  - exists [GOrphan]. eexists. cbn [run step]. rewrite G, Dn. split; [reflexivity|]. cbn. split; [lia|]. split; [reflexivity|]. constructor; [right; reflexivity | constructor].
+  - exists []. exists s. cbn. split; [reflexivity|]. split; [lia|]. split; [exact G | constructor].
+Qed.
